@@ -2,7 +2,8 @@
     operation sequences the harness ran against the real library. *)
 From Coq Require Import List Bool.
 Import ListNotations.
-From Attrs Require Import Base C20.Model.
+From Coq Require Import Arith.
+From Attrs Require Import Base C20.Model C20.Pipe.
 
 Definition outcome_eqb (a b : outcome) : bool :=
   match a, b with
@@ -30,16 +31,49 @@ Proof.
   - intros H; inversion H; subst. destruct ob; cbn; rewrite !Bool.eqb_reflx; reflexivity.
 Qed.
 
-(** A case: initial value of the switch, the flat operations, and what the
-    implementation showed after each of them. *)
-Record case := { c_init : bool; c_ops : list op; c_seen : list obs }.
+(** Probes run in the switch state reached at the end of the operation sequence. *)
+Record pipe_probe := { pp_hook : hook; pp_thr : nat; pp_v : nat; pp_seen : list hev * option nat }.
+Record tail_probe := { tp_tail : init_tail; tp_thr : nat; tp_seen : list iev * bool }.
 
-Definition model_of (c : case) : list obs :=
-  run_ops {| run := c_init c; frames := [] |} (c_ops c).
+Definition hev_eqb (a b : hev) : bool :=
+  match a, b with
+  | EvVal x, EvVal y | EvConv x, EvConv y => Nat.eqb x y
+  | EvUser g x, EvUser h y => Nat.eqb g h && Nat.eqb x y
+  | _, _ => false
+  end.
+Definition iev_eqb (a b : iev) : bool :=
+  match a, b with
+  | IVal x, IVal y => Nat.eqb x y
+  | IPost, IPost | IHashCache, IHashCache | IExcInit, IExcInit => true
+  | _, _ => false
+  end.
 
-Definition check_case (c : case) : bool := list_eqb obs_eqb (model_of c) (c_seen c).
+Definition pipe_probe_ok (s : state) (p : pipe_probe) : bool :=
+  let '(t, o) := run_hook s (pp_thr p) (pp_hook p) (pp_v p) in
+  list_eqb hev_eqb t (fst (pp_seen p)) && option_eqb Nat.eqb o (snd (pp_seen p)).
+Definition tail_probe_ok (s : state) (p : tail_probe) : bool :=
+  let '(t, ok) := run_init_tail s (tp_thr p) (tp_tail p) in
+  list_eqb iev_eqb t (fst (tp_seen p)) && Bool.eqb ok (snd (tp_seen p)).
 
-Lemma check_case_sound c : check_case c = true <-> c_seen c = model_of c.
+(** A case: initial value of the switch, the flat operations, what the
+    implementation showed after each of them, and the probes run at the end. *)
+Record case := { c_init : bool; c_ops : list op; c_seen : list obs;
+                 c_pipes : list pipe_probe; c_tails : list tail_probe }.
+
+Definition start_of (c : case) : state := {| run := c_init c; frames := [] |}.
+
+Definition model_of (c : case) :=
+  (run_ops (start_of c) (c_ops c),
+   map (fun p => run_hook (final_state (start_of c) (c_ops c)) (pp_thr p) (pp_hook p) (pp_v p)) (c_pipes c),
+   map (fun p => run_init_tail (final_state (start_of c) (c_ops c)) (tp_thr p) (tp_tail p)) (c_tails c)).
+
+Definition check_case (c : case) : bool :=
+  list_eqb obs_eqb (run_ops (start_of c) (c_ops c)) (c_seen c) &&
+  forallb (pipe_probe_ok (final_state (start_of c) (c_ops c))) (c_pipes c) &&
+  forallb (tail_probe_ok (final_state (start_of c) (c_ops c))) (c_tails c).
+
+Lemma check_case_sound c : check_case c = true -> c_seen c = run_ops (start_of c) (c_ops c).
 Proof.
-  unfold check_case. rewrite (list_eqb_spec obs_eqb obs_eqb_spec). split; congruence.
+  unfold check_case. intros H. apply andb_true_iff in H as [H _]. apply andb_true_iff in H as [H _].
+  apply (list_eqb_spec obs_eqb obs_eqb_spec) in H. congruence.
 Qed.
